@@ -28,13 +28,17 @@ def one(spec, R, batch, stats, considered_mode):
             [c for c in b.considered if not any(x["name"] == c.__name__ and x["abstract"] for x in spec["classes"])]
         evs = []
         g = None
+        prev_exact = None
         for k in range(1, 4):
             try:
                 with time_limit(10):
                     g = extract_grammar(considered, b.start)
-                evs.append({"e": "weights", "k": k, "exc": "", "impl": impl_grammar(g)})
+                exact = {str(t): repr(float(w)) for t, w in g.get_weights().items()}      # to the last bit
+                evs.append({"e": "weights", "k": k, "exc": "", "impl": impl_grammar(g),
+                            "exact_same": prev_exact is None or exact == prev_exact})
+                prev_exact = exact
             except Exception as e:
-                evs.append({"e": "weights", "k": k, "exc": exc_name(e), "impl": {"expd": False}})
+                evs.append({"e": "weights", "k": k, "exc": exc_name(e), "impl": {"expd": False}, "exact_same": True})
         if g is not None:
             weights = g.get_weights()
             for nt, alts in g.alternatives.items():
